@@ -48,6 +48,7 @@ type event map[string]any
 
 type result struct {
 	Job         job     `json:"job"`
+	Program     string  `json:"program"` // name of the program (replays find it by name)
 	Events      []event `json:"events"`
 	Reached     bool    `json:"reached"` // the cancellation point was reached before the program ended
 	AtRoot      bool    `json:"at_root"` // ... and that operation ran on the global frame
@@ -187,6 +188,7 @@ func init() {
 func runJob(j job) (res result) {
 	res.Job = j
 	p := programs[j.Prog]
+	res.Program = p.Name
 	g := newGate(j.K)
 	mfs := fstest.MapFS{"main.go": &fstest.MapFile{Data: []byte(p.Src)}}
 	i := interp.New(interp.Options{SourcecodeFilesystem: mfs, Stdout: new(bytes.Buffer), Stderr: new(bytes.Buffer)})
@@ -480,13 +482,26 @@ func run(c *fw.Ctx) error {
 		if fromDesign, err = designCheck(c); err != nil {
 			return err
 		}
-	}
-	if c.Replay != "" {
-		var j job
-		if err := c.LoadReplay(&j); err != nil {
+		if err = checkBlockingFamily(c); err != nil {
 			return err
 		}
-		jobs = []job{j}
+	}
+	if c.Replay != "" {
+		// a replay file holds the result of the failing run; its job is what is replayed
+		// (the program is named too: indices move when the family grows)
+		var r struct {
+			Job  job    `json:"job"`
+			Name string `json:"program"`
+		}
+		if err := c.LoadReplay(&r); err != nil {
+			return err
+		}
+		for pi := range programs {
+			if r.Name != "" && programs[pi].Name == r.Name {
+				r.Job.Prog = pi
+			}
+		}
+		jobs = []job{r.Job}
 	} else {
 		rng := rand.New(rand.NewSource(c.Seed))
 		for pi, p := range programs {
@@ -495,7 +510,20 @@ func run(c *fw.Ctx) error {
 				entries = append(entries, "path")
 			}
 			var ks []int64
-			if c.Quick() {
+			if pi >= firstBlocking {
+				// the family of blocking constructs: cancelled once everybody is blocked (or main
+				// is busy and the workers are blocked); quick samples one program in six
+				entries = []string{"eval", "path"}
+				if c.Quick() {
+					if (pi+int(c.Seed))%6 != 0 {
+						continue
+					}
+					entries = entries[pi%2 : pi%2+1]
+					ks = []int64{60 + rng.Int63n(60), 3 + rng.Int63n(30)}
+				} else {
+					ks = []int64{2, 9, 30, 70, 120, 4 + rng.Int63n(140)}
+				}
+			} else if c.Quick() {
 				ks = []int64{0, 1, 2, 3, 5, 8, 13, 21, 34, 55}
 				for n := 0; n < 4; n++ {
 					ks = append(ks, 4+rng.Int63n(120))
